@@ -99,7 +99,7 @@ func init() {
 			"a jump and its target agree on the height, breaks leave a loop at the height its body was entered with, nothing pops below the height a node's translation started at (R-STACKEFFECT); push tests its position against the size the stack is allocated with (R-VMSTACK).",
 		NotDecided:  "Symbol-table histories beyond the clauses above (slot arithmetic under arbitrary push/pop/define sequences), the absolute stack depth a program needs (overflow is a run-time error, not a crash), host crashes from value-level arithmetic.",
 		Assumptions: []string{"the VM dispatch is the switch over Opcode with the most cases in (*VM).Run", "ip is the instruction pointer variable of Run"},
-		Rules:       []*Rule{ruleOpTable, ruleNarrow, ruleJumpPatch, exhaustRule("Compile", 20), ruleLoopVarScope, ruleVMValues, f2iRule("pkg/bytecode", 2), ruleSlotMax, containerIdxRule("pkg/bytecode", 3), idxPostRule("pkg/bytecode"), ruleVMStack, ruleStackEffect},
+		Rules:       []*Rule{ruleOpTable, ruleNarrow, ruleJumpPatch, exhaustRule("Compile", 20), ruleLoopVarScope, ruleVMValues, f2iRule("pkg/bytecode", 2), ruleSlotMax, containerIdxRule("pkg/bytecode", 3), idxPostRule("pkg/bytecode"), ruleVMStack, ruleStackEffect, ruleConstPool},
 	})
 }
 
@@ -301,9 +301,9 @@ func init() {
 			"deep-copies per repetition and a zero step is rejected, as in the evaluator (R-VMVALUES); slot requirements are propagated on every path as a maximum " +
 			"of absolute indexes and nested tables continue the outer numbering (R-SLOTMAX); every operator reaches, through the compiler's table, an opcode that computes what the operator stands for (R-OPSEM); " +
 			"every placeholder jump is patched (R-JUMPPATCH) and the translation of every node kind is stack-neutral or leaves exactly its value, so no statement runs on another statement's operands (R-STACKEFFECT).",
-		NotDecided:  "Equality of final globals in general; slot arithmetic of the symbol table; constant pooling.",
+		NotDecided:  "Equality of final globals in general; slot arithmetic of the symbol table beyond the clauses above.",
 		Assumptions: []string{},
-		Rules:       []*Rule{exhaustRule("Compile", 20), fieldCovRule("Compile"), ruleDispatch, ruleOpSem, ruleLoopVarScope, ruleVMValues, runesRule("pkg/bytecode", "stringVal", 4), f2iRule("pkg/bytecode", 2), ruleSlotMax, ruleJumpPatch, ruleStackEffect, ruleEqDeep},
+		Rules:       []*Rule{exhaustRule("Compile", 20), fieldCovRule("Compile"), ruleDispatch, ruleOpSem, ruleLoopVarScope, ruleVMValues, runesRule("pkg/bytecode", "stringVal", 4), f2iRule("pkg/bytecode", 2), ruleSlotMax, ruleJumpPatch, ruleStackEffect, ruleEqDeep, ruleConstPool},
 	})
 }
 
